@@ -669,6 +669,10 @@ func (c *GenCtx) exoticText(t *rapid.T, depth int) *Node {
 	case 4:
 		return Call("join", Str(","), c.GenFloat(t, depth-1), c.fieldOrLit(t))
 	case 5:
+		// (round 10: a call argument that begins with the unary operator)
+		if rapid.IntRange(0, 2).Draw(t, "notAsArgument") == 0 {
+			return Call("str", Not(Call("is_int", c.fieldOrLit(t))))
+		}
 		return Call("str", Call("is_int", c.fieldOrLit(t)))
 	default:
 		return Call("upper", Call("str", c.GenInt(t, depth-1)))
